@@ -21,13 +21,14 @@ ARITH = ["+", "-", "*", "/", "%"]
 CMP = ["==", "!=", "<", "<=", ">", ">="]
 CAST_SQL = {"string": "TEXT", "bigint": "BIGINT", "int": "INT", "double": "DOUBLE", "boolean": "BOOLEAN"}
 
-SCHEMA = "id bigint, a bigint, b bigint, s string, t string, p boolean, q boolean, l array<bigint>"
-COLS = ["a", "b", "s", "t", "p", "q"]
-COLTYPE = {"a": "int", "b": "int", "s": "str", "t": "str", "p": "bool", "q": "bool", "l": "arr"}
+SCHEMA = "id bigint, a bigint, b bigint, s string, t string, p boolean, q boolean, l array<bigint>, d double"
+COLS = ["a", "b", "s", "t", "p", "q", "d"]
+COLTYPE = {"a": "int", "b": "int", "s": "str", "t": "str", "p": "bool", "q": "bool", "l": "arr", "d": "dbl"}
 INTS = [None, 0, 1, -1, 2]
 STRS = [None, "", "a", "ab"]
 BOOLS = [None, True, False]
 ARRS = [[10, 20, 30], None, [], [7]]
+DBLS = [1.25, -3.25, None, 1.75, 2.0, 2.5, 0.0, -0.5]      # exactly representable; 1.75 / 2.5 / -0.5 separate rounding from truncation
 
 
 def make_rows():
@@ -39,7 +40,7 @@ def make_rows():
         a, b = ab[i % len(ab)]
         s, t = st[(i * 5 + 1) % len(st)]
         p, q = pq[(i * 2 + 1) % len(pq)]
-        rows.append((i, a, b, s, t, p, q, ARRS[i % len(ARRS)]))
+        rows.append((i, a, b, s, t, p, q, ARRS[i % len(ARRS)], DBLS[i % len(DBLS)]))
     return rows
 
 
@@ -56,6 +57,10 @@ def val_coq(v) -> str:
         return f"(VInt {zlit(v)})"
     if isinstance(v, str):
         return f"(VStr {strlit(v)})"
+    if isinstance(v, float):
+        from fractions import Fraction
+        fr = Fraction(v)          # exact
+        return f"(VRat {zlit(fr.numerator)} {fr.denominator}%positive)"
     raise ValueError(v)
 
 
@@ -105,9 +110,9 @@ def to_coq(t) -> str:
 
 
 def env_coq(row) -> str:
-    _id, a, b, s, t, p, q, l = row
+    _id, a, b, s, t, p, q, l, d = row
     arrs = "[]" if l is None else f"[({strlit('l')}, {listlit([val_coq(x) for x in l])})]"
-    return f"(mkEnv {listlit([strlit(c) for c in COLS])} {listlit([val_coq(x) for x in (a, b, s, t, p, q)])} {arrs})"
+    return f"(mkEnv {listlit([strlit(c) for c in COLS])} {listlit([val_coq(x) for x in (a, b, s, t, p, q, d)])} {arrs})"
 
 
 # ---------------------------------------------------------------------------------------------- source text
@@ -354,6 +359,8 @@ class Gen:
             return r.choice([("col", "s"), ("col", "t"), ("col", "s"), ("lit", r.choice(["a", "", "ab", "x"]))])
         if ty == "bool":
             return r.choice([("col", "p"), ("col", "q"), ("col", "p"), ("lit", r.choice([True, False]))])
+        if ty == "dbl":
+            return r.choice([("col", "d"), ("col", "d"), ("alias", ("col", "d"), "w"), ("neg", ("col", "d"))])
         raise ValueError(ty)
 
     def pyval(self, ty):
@@ -385,6 +392,9 @@ class Gen:
             lambda d: self.when("int", d),
             lambda d: ("cast", g("bool", d), "int"),
             lambda d: ("cast", g("int", d), "bigint"),
+            lambda d: ("cast", self.leaf("dbl"), r.choice(["int", "bigint"])),                       # lossy on fractions
+            lambda d: ("cast", ("cast", g("int", d), "double"), r.choice(["int", "bigint"])),          # stacked casts
+            lambda d: ("cast", ("cast", self.leaf("dbl"), "bigint"), "int"),
             lambda d: ("getitem", ("col", "l"), r.choice([0, 1, 2, 5])),
             lambda d: ("alias", g("int", d), "z"),
         ]
@@ -397,6 +407,9 @@ class Gen:
             lambda d: ("bin", r.choice(["+", "*", "-"]), g("num", d), self.operand("int", d)),
             lambda d: ("neg", g("num", d)),
             lambda d: ("cast", g("int", d), "double"),
+            lambda d: ("cast", ("cast", self.leaf("dbl"), r.choice(["int", "bigint"])), "double"),   # lossy inner cast
+            lambda d: ("cast", ("alias", ("cast", self.leaf("dbl"), "bigint"), "whole"), "double"),
+            lambda d: self.leaf("dbl"),
         ]
 
     def forms_str(self):
@@ -404,7 +417,7 @@ class Gen:
         return [
             lambda d: self.when("str", d),
             lambda d: ("cast", g(r.choice(["int", "bool", "str"]), d), "string"),
-            lambda d: ("substr", g("str", d), ("py", r.choice([1, 2])), ("py", r.choice([0, 1, 2]))),
+            lambda d: ("substr", g("str", d), ("py", r.choice([1, 2, 3, -1, -2, -3, 1, 2])), ("py", r.choice([0, 1, 2, 3]))),
             lambda d: ("alias", g("str", d), "z"),
         ]
 
@@ -478,6 +491,15 @@ def exhaustive(max_depth=2):
                  ("like", S, "a%"), ("ilike", S, "A%"), ("rlike", S, "a"), ("startswith", S, ("py", "a")),
                  ("startswith", S, T), ("when", [(P, Q)], ("py", False)), ("cast", A, "boolean"), ("alias", P, "z")],
     }
+    D = ("col", "d")
+    d1["int"] += [("cast", D, "int"), ("cast", D, "bigint"), ("cast", ("cast", A, "double"), "int"),
+                  ("cast", ("cast", D, "bigint"), "int")]
+    d1["num"] += [D, ("neg", D), ("cast", ("cast", D, "int"), "double"), ("cast", ("cast", D, "bigint"), "double"),
+                  ("cast", ("alias", ("cast", D, "bigint"), "whole"), "double"), ("cast", ("cast", ("neg", D), "int"), "double")]
+    d1["str"] += [("substr", S, ("py", p), ("py", n)) for p in (-3, -2, -1, 1, 2, 3) for n in (1, 2)] \
+        + [("substr", T, ("py", -1), ("py", 1)), ("substr", S, ("py", 0), ("py", 2)), ("substr", S, ("lit", -2), ("lit", 2))]
+    d1["bool"] += [("bin", "<", D, ("py", 1)), ("bin", "==", ("cast", D, "int"), A), ("isnull", D),
+                   ("bin", "==", ("substr", S, ("py", -1), ("py", 1)), ("py", "b"))]
     out = [t for ts in d1.values() for t in ts]
     if max_depth < 2:
         return out
